@@ -22,20 +22,20 @@ typedef __complex128 qc_t;
 
 #if A_REAL_TYPE + 0 == A_REAL_SINGLE
 #define EPSQ ((q_t)FLT_EPSILON)
-#define MAG_LO (-30.0)
-#define MAG_HI (30.0)
+#define MAG_LO (-37.5)
+#define MAG_HI (38.5)
 #define W_LO (1e-32)
-#define W_HI (1e32)
-#define EXP_HI (80.0)
+#define W_HI (3.3e38)
+#define EXP_HI (89.6)
 #define TINY_LO (-6.0)
 #define INV_DEC (getenv("VF_INVDEC") ? atof(getenv("VF_INVDEC")) * 34 / 280 : 34.0) /* inverse families: the whole range (was 1e-3..1e3 before the extreme-magnitude repair) */
 #else
 #define EPSQ ((q_t)DBL_EPSILON)
-#define MAG_LO (-280.0)
-#define MAG_HI (280.0)
+#define MAG_LO (-307.0)
+#define MAG_HI (308.2)
 #define W_LO (1e-290)
-#define W_HI (1e290)
-#define EXP_HI (700.0)
+#define W_HI (1.7e308)
+#define EXP_HI (711.0)
 #define TINY_LO (-12.0)
 #define INV_DEC (getenv("VF_INVDEC") ? atof(getenv("VF_INVDEC")) : 280.0)
 #endif
@@ -251,6 +251,22 @@ static void sample(vf_rng *r, int range, a_real *re, a_real *im, int *region)
     }
     case 5: x = cos(ph); y = sin(ph); break;                    /* unit circle */
     default: x = mag * cos(ph); y = mag * sin(ph); break;
+    }
+    if (range == RG_WIDE && vf_chance(r, 1, 16))
+    {
+        /* both components within a factor two of the largest finite value: z is finite although |z| is not representable
+           (seeded change C10-H: pow(|z|, a) in place of exp(a log|z|) overflows there) */
+        x = (double)A_REAL_MAX * vf_uniform(r, 0.5, 1.0) * vf_sign(r);
+        y = (double)A_REAL_MAX * vf_uniform(r, 0.5, 1.0) * vf_sign(r);
+        if (vf_chance(r, 1, 4)) { if (vf_chance(r, 1, 2)) { x *= 1e-3; } else { y *= 1e-3; } }
+    }
+    if (range == RG_EXP && vf_chance(r, 1, 10))
+    {
+        /* the overflow threshold of the exponential: one component within (-2, +0.4) of ln(MAX), where e^t, cosh t and sinh t are
+           about to leave the range but half of them - and the products with a cosine or sine below one - have not yet (seeded
+           change C10-G: exp(|y|)/2 in place of cosh/sinh overflows for 709.78 < |y| <= 710.47 although sin z is finite) */
+        double const t = (log((double)A_REAL_MAX) + vf_uniform(r, -2.0, 0.4)) * vf_sign(r), u = vf_chance(r, 1, 4) ? vf_uniform(r, -1e-3, 1e-3) : vf_uniform(r, -M_PI, M_PI);
+        if (vf_chance(r, 1, 2)) { x = t; y = u; } else { x = u; y = t; }
     }
     if (vf_chance(r, 1, 24))
     {
@@ -529,6 +545,16 @@ static void pow_case(vf_rng *r)
         q_t kap;
         sample(r, RG_INV, &zr, &zi, &reg);
         sample(r, RG_INV, &ar, &ai, &reg2);
+        if (vf_chance(r, 1, 16))
+        {
+            /* base with both components within a factor two of the largest finite value (|z| itself not representable) and an
+               exponent that brings the power back into range */
+            zr = (a_real)((double)A_REAL_MAX * vf_uniform(r, 0.5, 1.0) * vf_sign(r));
+            zi = (a_real)((double)A_REAL_MAX * vf_uniform(r, 0.5, 1.0) * vf_sign(r));
+            ar = (a_real)(vf_sign(r) * vf_uniform(r, 0.05, 0.9));
+            ai = vf_chance(r, 1, 2) ? 0 : (a_real)vf_uniform(r, -0.5, 0.5);
+            reg = (zi > 0 ? 1 : 2) * 3 + (zr > 0 ? 1 : 2);
+        }
         if ((zr == 0 && zi == 0) || near_cut(CUT_NEG_REAL, zr, zi)) { ++n_skip_cut; continue; }
         if (hypot((double)ar, (double)ai) > 30) { double m = 30 * vf_unit(r) / hypot((double)ar, (double)ai); ar = (a_real)((double)ar * m); ai = (a_real)((double)ai * m); }
         z.real = zr; z.imag = zi; a.real = ar; a.imag = ai;
@@ -727,7 +753,7 @@ static void inverse_case(vf_rng *r)
             if (judge("log-exp", "identity", SW_CLOG, zq, kl + 1, y, d)) { VF_COUNT("judged/log-exp"); cell("log-exp", reg, cabsq(zq)); }
         }
         /* log(exp z) = z for |Im z| < pi: absolute error eps, i.e. relative 1/|z| */
-        if (fabs((double)im) < 3.1 && fabs((double)re) < EXP_HI)
+        if (fabs((double)im) < 3.1 && fabs((double)re) < log((double)A_REAL_MAX) - 1.5) /* exp z itself must be representable for the identity to make sense */
         {
             a_complex_exp(&t, z); a_complex_log(&y, t);
             if (judge("exp-log", "identity", SW_CEXP, zq, 1 + 1 / cabsq(zq) + fabsq(crealq(zq)) / cabsq(zq), y, d)) { VF_COUNT("judged/exp-log"); }
